@@ -12,7 +12,8 @@ import traceback
 ROOT = os.path.dirname(os.path.dirname(os.path.abspath(__file__)))
 SRC_ROOT = os.environ.get("PYVC_SRC_ROOT", "/repo/src")
 # runs against a scratch copy of the source (mutants, seeded changes) must not overwrite the evidence of /repo itself
-OUT = ROOT if SRC_ROOT == "/repo/src" else os.path.join(ROOT, ".cache", "scratch-runs")
+# (one directory per scratch copy, so that runs against different copies can go on side by side)
+OUT = ROOT if SRC_ROOT == "/repo/src" else os.path.join(ROOT, ".cache", "scratch-runs", re.sub(r"[^A-Za-z0-9_.-]+", "_", SRC_ROOT).strip("_"))
 
 
 def _engine_targets(ded, results, tier):
